@@ -1,1 +1,3 @@
 import BnpVerif.Proto
+import BnpVerif.Props.C06
+import BnpVerif.Drv.C06
